@@ -10,8 +10,9 @@ Abstract domain (per local name, flow sensitive, joined at merges)::
     SAFE{q}          the original receiver object only if the boolean flag parameter q (``inplace``) is true,
                      otherwise a copy -- this is what ``X = self if inplace else self.copy()`` evaluates to
     ORIG             (possibly) the original receiver whatever the flag
-    depth 0/1/2      the object itself / a part reached through attributes, subscripts, iteration (shares storage) /
-                     a fresh container whose elements are parts
+    depth 0/1/2/3    the object itself / a part reached directly through attributes, subscripts, iteration (shares
+                     storage) / a value that came out of a fresh container or a call and may be a part / a fresh
+                     container whose elements may be parts
 
 plus path facts about the flag parameters (``if inplace:`` ... ``if not inplace: return``).  A *mutation event* is
 an attribute / subscript / augmented assignment, ``del``, a container mutator call, or a call whose callee summary says
@@ -54,10 +55,12 @@ DECLARED_MODIFIES = {
     "set_params", "apply_to_arrays", "add", "delete", "add_tensor_network", "_add_tid", "_remove_tid",
     "__setitem__", "__delitem__", "multiply_", "__iand__", "__ior__", "__ixor__", "__imul__", "__itruediv__",
     "__iadd__", "__isub__", "_link_tags", "_unlink_tags", "_link_inds", "_unlink_inds", "_link_tags_inds",
-    "add_owner", "remove_owner", "_apply_function", "apply_to_arrays_",
+    "_apply_function", "apply_to_arrays_",
 }
 # trusted: returns an object that shares no state through which the receiver can be observed to change
 DECLARED_FRESH = {"copy", "deepcopy", "__copy__", "__deepcopy__"}
+# declared: weak back-references from a tensor to the networks that hold it -- registry only, not observable state
+UNOBSERVABLE_FIELDS = {"_owners"}
 CONTAINER_MUTATORS = {"append", "add", "pop", "update", "clear", "discard", "remove", "setdefault", "extend", "insert",
                       "popitem", "sort", "reverse", "fill", "appendleft", "popleft", "popright", "difference_update",
                       "intersection_update", "symmetric_difference_update", "move_to_end", "resize", "itemset",
@@ -89,6 +92,12 @@ class Val:
         if self.lvl == OTHER:
             return self
         return Val(self.lvl, self.flags, d)
+
+    def elem(self):
+        """an element / attribute of this value"""
+        if self.lvl == OTHER:
+            return self
+        return Val(self.lvl, self.flags, 1 if self.depth <= 1 else 2)
 
     def __repr__(self):
         return {OTHER: "OTHER", SAFE: "SAFE{%s}" % ",".join(sorted(self.flags)), ORIG: "ORIG"}[self.lvl] + \
@@ -515,6 +524,21 @@ def _absent_attrs(test):
     return out
 
 
+def _unobservable(node):
+    """the access path goes through a declared bookkeeping field (Tensor._owners)"""
+    while True:
+        if isinstance(node, ast.Attribute):
+            if node.attr in UNOBSERVABLE_FIELDS:
+                return True
+            node = node.value
+        elif isinstance(node, ast.Subscript):
+            node = node.value
+        elif isinstance(node, ast.Call):
+            node = node.func
+        else:
+            return False
+
+
 def _declared_effect(name):
     return name in DECLARED_MODIFIES
 
@@ -526,6 +550,7 @@ class Intra:
         self.az, self.prog, self.fi, self.P = az, az.prog, fi, param
         self.mod = fi.mod
         self.events = []
+        self._evkeys = set()
         self.ret = OTHERV
         self.ret_tuple = "unset"
         self.tuples = {}        # id(call node) -> per-position values of a tuple-returning callee
@@ -542,7 +567,7 @@ class Intra:
 
     # -- driver
     def run(self):
-        d = 2 if self.P == self.fi.vararg else 0
+        d = 3 if self.P == self.fi.vararg else 0
         st = State({self.P: Val(ORIG, depth=d)})
         self.block(self.fi.node.body, st)
 
@@ -571,9 +596,15 @@ class Intra:
         return s
 
     def event(self, kind, node, val, certain=True, note=""):
-        if val.lvl == OTHER or val.depth == 2:
+        if val.lvl == OTHER or val.depth == 3:
             return
+        if val.depth == 2 and kind in ("container-mutation", "subscript-assignment", "del", "augmented-assignment"):
+            return   # value that travelled through a fresh container: only resolved mutator methods count
         ln = getattr(node, "lineno", 0)
+        k = (kind, ln, val.lvl, val.flags, certain, note)
+        if k in self._evkeys:
+            return
+        self._evkeys.add(k)
         self.events.append(Event(kind, ln, self.mod.line(ln), val, certain, note, self.mod.rel))
 
     # -- flags
@@ -715,7 +746,8 @@ class Intra:
                 st.env.pop(t.id, None)
             elif isinstance(t, (ast.Attribute, ast.Subscript)):
                 root = self.ev(t.value, st)
-                self.event("del", s, root, note=f"del `{ast.unparse(t)}`")
+                if not _unobservable(t):
+                    self.event("del", s, root, note=f"del `{ast.unparse(t)}`")
         return st
 
     def s_If(self, s, st):
@@ -848,7 +880,7 @@ class Intra:
 
     # -- binding
     def element(self, v):
-        return v.part(1) if v.lvl else v
+        return v.elem()
 
     def bind(self, t, v, st, valnode, stmt):
         if isinstance(t, ast.Name):
@@ -894,17 +926,20 @@ class Intra:
                     self.assumed.add(f"lazy cache initialisation `{ast.unparse(t)}` (under a test that it is unset) is "
                                      f"not an observable modification")
                 return
-            self.event("attribute-assignment", stmt, root, note=f"target `{ast.unparse(t)}`")
+            if not _unobservable(t):
+                self.event("attribute-assignment", stmt, root, note=f"target `{ast.unparse(t)}`")
         elif isinstance(t, ast.Subscript):
             root = self.ev(t.value, st)
             self.ev(t.slice, st)
+            if _unobservable(t):
+                return
             if isinstance(t.value, ast.Name) and isinstance(t.slice, ast.Constant) and \
                     isinstance(t.slice.value, str) and FLAG_RE.match(t.slice.value) and valnode is not None:
                 st.kwf.setdefault(t.value.id, {})[t.slice.value] = self.eval_flag(valnode, st)
             self.event("subscript-assignment", stmt, root, note=f"target `{ast.unparse(t)}`")
             # storing the receiver into a local container: the container now holds it
             if isinstance(t.value, ast.Name) and v.lvl and root.lvl == OTHER:
-                st.env[t.value.id] = join(st.env.get(t.value.id, OTHERV), v.part(2))
+                st.env[t.value.id] = join(st.env.get(t.value.id, OTHERV), v.part(3))
 
     # -- expressions
     def name_val(self, id, st):
@@ -921,9 +956,10 @@ class Intra:
 
     def ev(self, e, st, quiet=False):
         if quiet:
-            saved = len(self.events)
+            saved, savedk = len(self.events), set(self._evkeys)
             v = self.ev(e, st)
             del self.events[saved:]
+            self._evkeys = savedk
             return v
         m = getattr(self, "e_" + type(e).__name__, None)
         if m is None:
@@ -983,7 +1019,7 @@ class Intra:
 
     def _container(self, elts, st):
         v = joinall([self.ev(x, st) for x in elts if x is not None])
-        return v.part(2) if v.lvl else v
+        return v.part(3) if v.lvl else v
 
     def e_Tuple(self, e, st):
         return self._container(e.elts, st)
@@ -1019,11 +1055,11 @@ class Intra:
 
     def e_Yield(self, e, st):
         if e.value is not None:
-            self.ret = join(self.ret, self.ev(e.value, st).part(1))
+            self.ret = join(self.ret, self.ev(e.value, st).elem())
         return OTHERV
 
     def e_YieldFrom(self, e, st):
-        self.ret = join(self.ret, self.ev(e.value, st).part(1))
+        self.ret = join(self.ret, self.ev(e.value, st).elem())
         return OTHERV
 
     def _comp(self, e, elts, st):
@@ -1034,7 +1070,7 @@ class Intra:
             for c in g.ifs:
                 self.ev(c, inner)
         v = joinall([self.ev(x, inner) for x in elts])
-        return v.part(2) if v.lvl else v
+        return v.part(3) if v.lvl else v
 
     def e_ListComp(self, e, st):
         return self._comp(e, [e.elt], st)
@@ -1113,7 +1149,7 @@ class Intra:
                 v = joinall(allv)
                 if n in PASS_ELEMENT:
                     return self.element(v)
-                return v.part(2) if v.lvl else v
+                return v.part(3) if v.lvl else v
             if n in PASS_ELEMENT:
                 return self.element(joinall(allv))
             if n in ("deepcopy", "copy"):
@@ -1149,7 +1185,7 @@ class Intra:
         virt = [k for k in e.keywords if k.arg == "virtual"]
         v = joinall(allv)
         if v.lvl and virt and not (isinstance(virt[0].value, ast.Constant) and virt[0].value.value is False):
-            return v.part(1)
+            return v.elem()
         return OTHERV
 
     def method_call(self, e, st, m, basenode, rv, argvals, allv):
@@ -1158,7 +1194,7 @@ class Intra:
         if rv.lvl == OTHER:
             # other.m(..., <receiver>, ...): local container aliasing, else by-name resolution for the arguments
             if m in CONTAINER_ADDERS and isinstance(basenode, ast.Name) and any(v.lvl for v in allv):
-                st.env[basenode.id] = join(st.env.get(basenode.id, OTHERV), joinall(allv).part(2))
+                st.env[basenode.id] = join(st.env.get(basenode.id, OTHERV), joinall(allv).part(3))
                 return OTHERV
             if m == "setdefault" and isinstance(basenode, ast.Name) and len(e.args) == 2 and \
                     isinstance(e.args[0], ast.Constant) and isinstance(e.args[0].value, str) and \
@@ -1180,7 +1216,7 @@ class Intra:
             cands = self.prog.candidates(self.fi.cls, m, "self")
         if not cands:
             cands = self.prog.candidates_any(m)
-        if rv.depth >= 1 and m in CONTAINER_MUTATORS and not (rv.depth == 2):
+        if rv.depth in (1, 2) and m in CONTAINER_MUTATORS and not _unobservable(basenode):
             self.event("container-mutation", e, rv, note=f"`{ast.unparse(e.func)}(...)` on a part of the receiver")
         if cands:
             out = self.apply(e, st, cands, rv, argvals, bound=True, label=f".{m}")
@@ -1343,10 +1379,12 @@ class Intra:
     def _ret_map(v, r):
         if r.depth == 0:
             d = v.depth
-        elif v.depth == 2:
+        elif r.depth == 3:
+            d = 3
+        elif v.depth <= 1:
             d = r.depth
         else:
-            d = max(r.depth, v.depth) if r.depth != 2 else 2
+            d = 2
         return Val(v.lvl, v.flags, d)
 
 
